@@ -71,7 +71,7 @@ class Result:
         if len(self.samples) < 3 or (self.evaluations % 500 == 0 and len(self.samples) < 30):
             self.samples.append(case)
 
-    def merge_harness(self, docs, hashes):
+    def merge_harness(self, docs, hashes, extra=None):
         for d in docs:
             self.evaluations += d["evaluations"]
             if not d["exhaustive"]:
@@ -97,7 +97,7 @@ class Result:
             for k, v in d.get("texts", {}).items():
                 self.coverage[k] = v
             for v in d["violations"]:
-                self.violate(v["key"], v["case"], v["detail"], replay=dict(harness=d["harness"], case=v["case"]),
+                self.violate(v["key"], v["case"], v["detail"], replay=dict(harness=d["harness"], case=v["case"], extra=extra or []),
                              count=v["count"])
         self.distinct |= hashes
 
@@ -143,7 +143,7 @@ def run_harness(res, name, tier, extra=None, kind="plain", nshards=None, deadlin
                 with open(hp, "rb") as f:
                     a.frombytes(f.read())
                 hashes.update(a)
-    res.merge_harness(docs, hashes)
+    res.merge_harness(docs, hashes, extra)
     for i, rc, err in crashed:
         # a crashing harness is itself a finding about the code under test (or the harness): never silent
         res.violate("%s/harness=%s/shard-crash/rc=%d" % (res.prop, name, rc), "shard=%d/%d tier=%s" % (i, nshards, tier),
@@ -152,12 +152,12 @@ def run_harness(res, name, tier, extra=None, kind="plain", nshards=None, deadlin
     return docs
 
 
-def replay_harness(name, case, kind="plain", tier="quick"):
+def replay_harness(name, case, kind="plain", tier="quick", extra=None):
     exe = build.build_harness(name, kind)
     wd = os.path.join(WORK, name + "-" + kind)
     os.makedirs(wd, exist_ok=True)
     out = os.path.join(wd, "replay.json")
-    r = subprocess.run([exe, "--tier", tier, "--case", case, "--out", out], capture_output=True, text=True, env=env(), cwd=wd)
+    r = subprocess.run([exe, "--tier", tier, "--case", case, "--out", out] + list(extra or []), capture_output=True, text=True, env=env(), cwd=wd)
     sys.stderr.write(r.stderr[-4000:])
     if r.returncode != 0 or not os.path.exists(out):
         return None
